@@ -15,6 +15,17 @@ modes
            the call under test -- and dumps the new store through the API and table by table.
   dump     {xdg, testing}   re-opens a legacy file with PeeweeStorage and dumps it (used only
            after a hash mismatch, to tell a byte change from a content change).
+  session  {xdg, steps: [step ..]}   several constructions in ONE interpreter, in order (the stores share
+           process-wide state: peewee.py's module-level database handle, class attributes, logging ..):
+             {op: "peewee", testing | file, touch, close}   a PeeweeStorage opened beforehand (default file of
+                                                            a profile or a file outside the data dir), read
+                                                            once if touch, left open unless close
+             {op: "sqlite", testing, custom, close}         the call under test, observed as in `migrate`,
+                                                            plus the directory listing / legacy fingerprints
+                                                            right before and right after this step
+           -> one result per step.
+
+The symbolic op ["insert_gen", bucket, spec] is expanded by harness.c14_gen.expand_events (large buckets).
 
 Instants are integer microseconds since the epoch; data dicts travel as JSON."""
 import json
@@ -26,6 +37,7 @@ from datetime import datetime, timedelta, timezone
 REPO = os.environ.get("VERIF_REPO", "/repo")
 if REPO not in sys.path:
     sys.path.insert(0, REPO)
+from harness.c14_gen import expand_events, legacy_prints, listing  # noqa: E402
 EPOCH = datetime(1970, 1, 1, tzinfo=timezone.utc)
 US = timedelta(microseconds=1)
 
@@ -81,6 +93,10 @@ def apply_sym(st, op):
         elif name == "insert_many":
             conc = op
             st.insert_many(op[1], [mk_ev(s) for s in op[2]])
+        elif name == "insert_gen":
+            evs = expand_events(op[2])
+            conc = ["insert_many", op[1], evs]
+            st.insert_many(op[1], [mk_ev(s) for s in evs])
         elif name == "insert":
             conc = op
             st.insert_one(op[1], mk_ev(op[2]))
@@ -141,15 +157,26 @@ class _Capture(logging.Handler):
         self.messages.append(record.getMessage())
 
 
-def mode_migrate(req):
-    set_xdg(req["xdg"])
-    cap = _Capture()
-    lg = logging.getLogger("aw_datastore.migration")
-    lg.setLevel(logging.DEBUG)
-    lg.addHandler(cap)
-    lg.propagate = False
-    logging.getLogger("aw_datastore.storages.sqlite").propagate = False
-    logging.getLogger("aw_datastore.storages.peewee").propagate = False
+_capture = None
+
+
+def _logging_setup():
+    global _capture
+    if _capture is None:
+        _capture = _Capture()
+        lg = logging.getLogger("aw_datastore.migration")
+        lg.setLevel(logging.DEBUG)
+        lg.addHandler(_capture)
+        lg.propagate = False
+        logging.getLogger("aw_datastore.storages.sqlite").propagate = False
+        logging.getLogger("aw_datastore.storages.peewee").propagate = False
+    return _capture
+
+
+def open_sqlite(req, close=True, keep=None):
+    """construct SqliteStorage(testing, filepath) -- the call under test -- and observe the new store"""
+    cap = _logging_setup()
+    del cap.messages[:]
     from aw_datastore.storages import SqliteStorage
     out = {"exc": None}
     # observe (not alter) what detect_db_files is shown: record os.listdir of the data dir
@@ -168,13 +195,16 @@ def mode_migrate(req):
     if req.get("custom"):
         path = os.path.join(req["xdg"], req["custom"])
     try:
-        st = SqliteStorage(testing=req["testing"], filepath=path)
+        try:
+            st = SqliteStorage(testing=req["testing"], filepath=path)
+        finally:
+            os.listdir = real_listdir
     except Exception as ex:  # noqa: BLE001
         out["exc"] = type(ex).__name__
         out["exc_text"] = str(ex)[:200]
-        out["migration_log"] = cap.messages
+        out["migration_log"] = list(cap.messages)
         return out
-    out["migration_log"] = cap.messages
+    out["migration_log"] = list(cap.messages)
     # what another connection (= a process started after a crash right now) would see
     import sqlite3
     dbfile = st.conn.execute("PRAGMA database_list").fetchone()[2]
@@ -189,7 +219,54 @@ def mode_migrate(req):
     out["raw_events"] = [list(r) for r in st.conn.execute(
         "SELECT id, bucketrow, starttime, endtime, datastr FROM events ORDER BY id")]
     out.update(dump_store(st))
-    st.conn.close()
+    if close:
+        st.conn.close()
+    elif keep is not None:
+        keep.append(st)
+    return out
+
+
+def mode_migrate(req):
+    set_xdg(req["xdg"])
+    return open_sqlite(req)
+
+
+def mode_session(req):
+    set_xdg(req["xdg"])
+    _logging_setup()
+    keep = []            # objects stay referenced until the interpreter exits
+    out = []
+    for step in req["steps"]:
+        if step["op"] == "peewee":
+            from aw_datastore.storages import PeeweeStorage
+            r = {"op": "peewee", "exc": None}
+            try:
+                if step.get("file"):
+                    st = PeeweeStorage(testing=bool(step.get("testing", True)),
+                                       filepath=os.path.join(req["xdg"], step["file"]))
+                else:
+                    st = PeeweeStorage(testing=step["testing"])
+                keep.append(st)
+                if step.get("touch"):
+                    r["n_buckets"] = len(st.buckets())
+                if step.get("close"):
+                    st.db.close()
+            except Exception as ex:  # noqa: BLE001
+                r["exc"] = type(ex).__name__
+            out.append(r)
+        elif step["op"] == "sqlite":
+            before = legacy_prints(req["xdg"])
+            lst = listing(req["xdg"])
+            r = open_sqlite({"xdg": req["xdg"], "testing": step["testing"], "custom": step.get("custom")},
+                            close=bool(step.get("close")), keep=keep)
+            r["op"] = "sqlite"
+            r["listing_before"] = lst
+            r["before"] = before
+            r["after"] = legacy_prints(req["xdg"])
+            r["listing_after"] = listing(req["xdg"])
+            out.append(r)
+        else:
+            raise RuntimeError("bad step " + str(step))
     return out
 
 
@@ -206,7 +283,7 @@ def main():
     mode, path = sys.argv[1], sys.argv[2]
     req = json.load(open(path))
     logging.getLogger("aw_core.models").setLevel(logging.ERROR)
-    res = {"build": mode_build, "migrate": mode_migrate, "dump": mode_dump}[mode](req)
+    res = {"build": mode_build, "migrate": mode_migrate, "dump": mode_dump, "session": mode_session}[mode](req)
     json.dump(res, sys.stdout)
     sys.stdout.flush()
 
